@@ -102,6 +102,15 @@ theorem usageTrigger_encode :
        rw [test_two_pow f _ (by simp [BitPos.index])]
        simp [BitPos.read, BitPos.index, trigIE, BitVec.getLsbD_setWidth, BitVec.getLsbD_ushiftRight])
 
+/-- a message carrying several usage reports: the trigger IE of the i-th report reads back as the i-th report's own flag
+    word — every flag name, every word, every number of reports (the encoder is applied per report; that the real encoder
+    shares nothing between the reports of one message is what the `urr`-profile stream observes on the wire) -/
+theorem message_triggers_independent (ws : List (BitVec 32)) (i : Nat) (h : i < ws.length) :
+    ∀ p ∈ Spec.usageReportTrigger, p.read ((ws.map trigIE)[i]'(by simpa using h)) = test ws[i] (2 ^ p.index) := by
+  intro p hp
+  rw [List.getElem_map]
+  exact usageTrigger_encode p hp ws[i]
+
 theorem reportingTrigger_encode :
     ∀ p ∈ Spec.reportingTriggers, ∀ f : BitVec 32, p.read (trigIE f) = test f (2 ^ p.index) := by
   apply forall_mem_of_foldr
